@@ -226,12 +226,12 @@ func GenOneCRL(t *rapid.T) []byte {
 
 // cbTemplates are read programs that mimic how zcrypto's own parsers use cryptobyte.
 var cbTemplates = [][]int{
-	{38, 8, 39, 8, 26, 8, 37, 0, 39, 8, 11, 0, 25, 8, 26, 8, 21, 0, 20, 0},           // ParseRevocationList prologue
-	{25, 8, 37, 0, 25, 9, 37, 0, 25, 8, 37, 0, 19, 0, 27, 0},                         // parseName
-	{25, 8, 37, 0, 19, 0, 36, 1, 25, 3},                                              // parseExtension (optional boolean)
-	{25, 8, 37, 0, 16, 0, 21, 0, 31, 8},                                              // revoked entry
-	{27, 0, 37, 0, 27, 0, 37, 0, 27, 0, 37, 0, 27, 0, 37, 0, 27, 0, 37, 0, 27, 0},    // walk down
-	{5, 0, 37, 0, 0, 0, 5, 0, 4, 0, 6, 0},                                            // TLS-style vectors
+	{38, 8, 39, 8, 26, 8, 37, 0, 39, 8, 11, 0, 25, 8, 26, 8, 21, 0, 20, 0},            // ParseRevocationList prologue
+	{25, 8, 37, 0, 25, 9, 37, 0, 25, 8, 37, 0, 19, 0, 27, 0},                          // parseName
+	{25, 8, 37, 0, 19, 0, 36, 1, 25, 3},                                               // parseExtension (optional boolean)
+	{25, 8, 37, 0, 16, 0, 21, 0, 31, 8},                                               // revoked entry
+	{27, 0, 37, 0, 27, 0, 37, 0, 27, 0, 37, 0, 27, 0, 37, 0, 27, 0, 37, 0, 27, 0},     // walk down
+	{5, 0, 37, 0, 0, 0, 5, 0, 4, 0, 6, 0},                                             // TLS-style vectors
 	{25, 8, 37, 0, 33, 17, 34, 18, 35, 19, 22, 0, 23, 0, 18, 0, 10, 0, 17, 16, 24, 3}, // optional readers
 }
 
